@@ -32,8 +32,7 @@ pub mod address {
     use std::net::SocketAddr;
     use std::net::SocketAddrV4;
     use std::net::SocketAddrV6;
-    use std::string::FromUtf8Error;
-
+    use anyhow::bail;
     use tokio_util::bytes::Buf;
     use tokio_util::bytes::BufMut;
     use tokio_util::bytes::Bytes;
@@ -45,8 +44,8 @@ pub mod address {
     pub fn write_address_port(address: &Address, buf: &mut BytesMut) -> Result<(), io::Error> {
         match address {
             Address::Domain(host, port) => {
-                if host.is_empty() {
-                    panic!("Empty destination address")
+                if host.is_empty() || host.len() > u8::MAX as usize {
+                    return Err(io::Error::new(io::ErrorKind::InvalidInput, "destination address is empty or longer than 255 bytes"));
                 }
                 buf.put_u16(*port);
                 let bytes = host.as_bytes();
@@ -70,16 +69,39 @@ pub mod address {
         Ok(())
     }
 
-    pub fn read_address_port(buf: &mut Bytes) -> Result<Address, FromUtf8Error> {
+    pub fn read_address_port(buf: &mut Bytes) -> anyhow::Result<Address> {
+        if buf.remaining() < 3 {
+            bail!("insufficient length of address");
+        }
         let port = buf.get_u16();
-        let addr_type = AddressType::new(buf.get_u8());
+        let addr_type = buf.get_u8();
+        if addr_type != AddressType::Ipv4 as u8 && addr_type != AddressType::Domain as u8 && addr_type != AddressType::Ipv6 as u8 {
+            bail!("unsupported address type: {}", addr_type);
+        }
+        let addr_type = AddressType::new(addr_type);
         match addr_type {
-            AddressType::Ipv4 => Ok(Address::from(SocketAddr::V4(SocketAddrV4::new(Ipv4Addr::from(buf.get_u32()), port)))),
+            AddressType::Ipv4 => {
+                if buf.remaining() < 4 {
+                    bail!("insufficient length of address");
+                }
+                Ok(Address::from(SocketAddr::V4(SocketAddrV4::new(Ipv4Addr::from(buf.get_u32()), port))))
+            }
             AddressType::Domain => {
+                if !buf.has_remaining() {
+                    bail!("insufficient length of address");
+                }
                 let length = buf.get_u8() as usize;
+                if buf.remaining() < length {
+                    bail!("insufficient length of address");
+                }
                 Ok(Address::Domain(String::from_utf8(buf.copy_to_bytes(length).to_vec())?, port))
             }
-            AddressType::Ipv6 => Ok(Address::from(SocketAddr::V6(SocketAddrV6::new(Ipv6Addr::from(buf.get_u128()), port, 0, 0)))),
+            AddressType::Ipv6 => {
+                if buf.remaining() < 16 {
+                    bail!("insufficient length of address");
+                }
+                Ok(Address::from(SocketAddr::V6(SocketAddrV6::new(Ipv6Addr::from(buf.get_u128()), port, 0, 0))))
+            }
         }
     }
 }
